@@ -1,14 +1,17 @@
 ID = 'C08'
 TITLE = 'Perturbation wrappers evaluate exactly the input that each output index denotes'
-CONTRACT_MODULES = ['contracts.utils_c', 'contracts.predict_c', 'contracts.ersatz_c', 'contracts.wrappers_c']
+CONTRACT_MODULES = ['contracts.utils_c', 'contracts.predict_c', 'contracts.ersatz_c', 'contracts.wrappers_c', 'contracts.product_c']
 FUNCTIONS = ['tangermeme.marginalize.marginalize', 'tangermeme.ablate.ablate', 'tangermeme.marginalize.marginalize_annotations',
-             'tangermeme.ablate.ablate_annotations', 'tangermeme.space.space']
+             'tangermeme.ablate.ablate_annotations', 'tangermeme.space.space',
+             'tangermeme.product.apply_product', 'tangermeme.product.apply_pairwise']
 BOUNDED = 'bounded.C08'
 BOUNDED_BUDGET = {'quick': 60, 'thorough': 600}
 LEVEL = 'other'
 EXPLANATION = ("index identity of every wrapper output as a postcondition over an uninterpreted row-wise func/model "
                "(row contents as z3 lambda arrays): marginalize before/after, ablate through reshape(-1), repeat_interleave "
-               "and the inverse reshape; callee contracts (substitute, predict) used modularly at call sites")
+               "and the inverse reshape; callee contracts (substitute, predict) used modularly at call sites; apply_product / apply_pairwise: "
+               "entry [i, j1, .., jk] = func on example i with argument rows j1..jk, for every batch size (pending-row lists and the cat-abstracted "
+               "output list as loop invariants over the lexicographic nest, divmod_unique instances)")
 ASSUMPTIONS = ["func / model row-wise, pure, deterministic; func rejects extra arguments with a different leading dimension",
                "shuffle_fn returns a (batch, n, alphabet, length) tensor that is a function of its arguments",
                "structural enumeration: func opaque or tangermeme.predict; outputs tensor / tuple2; 0-2 extra args"]
